@@ -233,7 +233,23 @@ class Session:
                 return cfg, {"nat": len(obj)}
             if name == "keys":
                 return cfg, {"keys": list(obj.keys())}
-        if name == "load_defaults":
+        if name == "load_defaults_d":
+            cfg.load_defaults(self.supply("load_defaults", op[1]), merge=False)
+        elif name == "load_overrides_d":
+            cfg.load_overrides(self.supply("load_overrides", op[1]), merge=False)
+        elif name == "load_collection_d":
+            cfg.load_collection(self.supply("load_collection", op[1]), merge=False)
+        elif name == "load_system_d":
+            cfg.load_system(merge=False)
+        elif name == "load_user_d":
+            cfg.load_user(merge=False)
+        elif name == "load_project_d":
+            cfg.load_project(merge=False)
+        elif name == "load_runtime_d":
+            cfg.load_runtime(merge=False)
+        elif name == "merge":
+            cfg.merge()
+        elif name == "load_defaults":
             cfg.load_defaults(self.supply("load_defaults", op[1]))
         elif name == "load_overrides":
             cfg.load_overrides(self.supply("load_overrides", op[1]))
@@ -443,6 +459,17 @@ def c_op(op):
         return "(Len %s %s)" % (c_fl(op[1]), c_path(op[2]))
     if n == "keys":
         return "(Keys %s %s)" % (c_fl(op[1]), c_path(op[2]))
+    if n == "load_defaults_d":
+        return "(LoadDefaultsD %s)" % c_tree(op[1])
+    if n == "load_overrides_d":
+        return "(LoadOverridesD %s)" % c_tree(op[1])
+    if n == "load_collection_d":
+        return "(LoadCollectionD %s)" % c_tree(op[1])
+    if n in ("load_system_d", "load_user_d", "load_project_d", "load_runtime_d"):
+        return {"load_system_d": "LoadSystemD", "load_user_d": "LoadUserD",
+                "load_project_d": "LoadProjectD", "load_runtime_d": "LoadRuntimeD"}[n]
+    if n == "merge":
+        return "Merge"
     if n == "load_defaults":
         return "(LoadDefaults %s)" % c_tree(op[1])
     if n == "load_overrides":
@@ -538,7 +565,8 @@ def shrink_common(case):
             for t2 in shrink_tree(e["data"]):
                 yield dict(case, fs=fs[:i] + [[loc, sfx, {"data": t2}]] + fs[i + 1:])
     for i, op in enumerate(ops):
-        if op[0] in ("load_defaults", "load_overrides", "load_collection") and isinstance(op[1], dict):
+        if op[0] in ("load_defaults", "load_overrides", "load_collection", "load_defaults_d",
+                     "load_overrides_d", "load_collection_d") and isinstance(op[1], dict):
             for t2 in shrink_tree(op[1]):
                 yield dict(case, ops=ops[:i] + [[op[0], t2]] + ops[i + 1:])
         if op[0] == "load_shell_env":
